@@ -177,6 +177,30 @@ def run_x15(ctx, q, out):
     mr = ctx.tlc("tasklane", "PushTimeout", cfg % (5, "TRUE"), workers=4, timeout=300, count=False, tag="mutant: timeout read when the timer fires")
     if mr.violated != "NotEarly":
         raise vlib.Infra("vacuity: the EvalLate mutant satisfies NotEarly")
+    # unbounded clock, any timeout up to 1000 ticks: NotEarly as part of an inductive invariant, discharged by Apalache (base + step);
+    # the EvalLate variant of Fire must break the step.  A failure here is an infrastructure error, never a verdict about the code.
+    import os, shutil, subprocess
+    src = open(os.path.join(os.path.dirname(vlib.SPEC), "proofs", "tasklane", "PushTimeoutInd.tla")).read()
+    adir = ctx.path("apalache")
+    os.makedirs(adir, exist_ok=True)
+    def apa(name, text, init, length):
+        with open(os.path.join(adir, name + ".tla"), "w") as f:
+            f.write(text.replace("MODULE PushTimeoutInd", "MODULE " + name))
+        pr = subprocess.run(["timeout", "300", "apalache-mc", "check", "--init=" + init, "--inv=IndInv", "--length=%d" % length,
+                             "--out-dir=" + os.path.join(adir, "out"), name + ".tla"], cwd=adir, capture_output=True, text=True)
+        ctx.log("apalache %s init=%s length=%d: rc=%d" % (name, init, length, pr.returncode))
+        return pr.returncode, pr.stdout[-1500:]
+    rc0, o0 = apa("PushTimeoutInd", src, "Init", 0)
+    rc1, o1 = apa("PushTimeoutInd", src, "IndInit", 1)
+    if rc0 != 0 or rc1 != 0:
+        raise vlib.Infra("Apalache did not discharge the inductive invariant of PushTimeout:\n" + o0 + o1)
+    mut = src.replace("now - t0 >= armed /\\ pc' = \"idle\"", "now - t0 >= cfg /\\ pc' = \"idle\"")
+    if mut == src:
+        raise vlib.Infra("mutant text of PushTimeoutInd not produced")
+    rcm, om = apa("PushTimeoutIndMut", mut, "IndInit", 1)
+    if rcm == 0:
+        raise vlib.Infra("vacuity: Apalache accepts the inductive step for the EvalLate variant")
+    shutil.rmtree(adir, ignore_errors=True)
     hb = ctx.build("lanetime")
     ctx.run([hb, "-reps", "2" if q else "8", "-out", out], timeout=1500)
     rows = vlib.read_ndjson(out)
